@@ -1,4 +1,5 @@
 #!/bin/sh
+export HCSYM_EVIDENCE_DIR=/tmp/hcsym-scratch-evidence; mkdir -p $HCSYM_EVIDENCE_DIR
 # tools/seed_store.sh <seed-id> <prop> <outdir> <worktree>  : confirm a seeded change and store it
 # expects <outdir>/patch.diff, <outdir>/demo.cmd (command run inside the worktree; must FAIL with the patch, PASS without)
 id=$1; prop=$2; out=$3; wt=$4
